@@ -346,7 +346,7 @@ def guarded_true(body, bb, pred):
 
 # ---- error discipline --------------------------------------------------------------------------------------
 
-PASS_THROUGH = ("ok", "err", "map", "map_err", "and_then", "or_else", "ok_or", "ok_or_else", "into", "from", "as_ref", "as_mut",
+PASS_THROUGH = ("ok", "err", "map", "map_err", "and_then", "or_else", "ok_or", "ok_or_else", "into", "from", "as_ref", "as_mut", "as_deref", "as_deref_mut", "inspect", "inspect_err",
                 "copied", "cloned", "transpose", "flatten", "filter", "unwrap_or_default")
 
 
